@@ -32,11 +32,11 @@ CHECKS["C11"] = (True, MC, "one-step structural induction: symbolic execution of
     "Compiler().Compile is the replay channel and a gate, labelled non-symbolic.",
     "Trusts z3 and the proxy model; stub children stand for arbitrary sub-trees because dispatch is by class name; the induction itself is not mechanised.", "DESIGN.md 5 (C11)")
 CHECKS["C12"] = (True, MC, "one-step structural induction: symbolic execution of the real name-validation visitor per scope-forming node kind over symbolic names (symx + z3)",
-    "One inductive step per scope-forming node kind (declaration, block, for, while, do, if, function, struct): the real ValidateVariableNamesVisitor runs on an "
+    "One inductive step per scope-forming node kind (declaration, block, sibling blocks, for, while, do, if, if / else-if / else chain, function, struct): the real ValidateVariableNamesVisitor runs on an "
     "arbitrary incoming chain of 1-3 name tables whose names are symbolic elements of an unbounded domain, with stub children that declare and probe names; z3 decides "
     "that a declaration is rejected iff its name is visible, children see exactly chain + names declared so far, sibling branches are independent and the incoming "
     "chain is unchanged. A template family through Compiler().Compile (declaration and use at 13 points x 7 names, expected verdict from a reference scope walker) is "
-    "the replay channel and covers ComputeTypes' scopes; labelled non-symbolic.",
+    "the replay channel and covers ComputeTypes' scopes, together with 672 if / else-if / else chains of 2-4 braced or unbraced branches; labelled non-symbolic.",
     "Trusts z3 and the SymName model (names compared only by ==/hash); the induction over tree depth is a paper argument.", "DESIGN.md 5 (C12)")
 
 CHECKS["C10"] = (True, MC, "symbolic execution of the real Scope.FindFunction / Function.Match over symbolic per-argument scores and of types.Match over symbolic sizes (symx + z3)",
